@@ -104,7 +104,9 @@ class Node(dict):
 
     def type(self):
         t = self.get('t')
-        return self.func.types[t] if t is not None and t >= 0 else ''
+        t = self.func.types[t] if t is not None and t >= 0 else ''
+        # `T *const p` is, for every rule, a pointer to T: the top-level const of the pointer itself says nothing about what it points to
+        return t[:-5].rstrip() if t.endswith('const') and t[:-5].rstrip().endswith('*') else t
 
     def ancestors(self):
         p = self.parent
